@@ -50,11 +50,13 @@ def delta(i, j):
     return 1 if i == j else 0
 
 
-def build(tier):
+def build(tier, ctx_metric=None, ctx_algebra=None):
     blocks = []
     with patched():
         S = PointSetup()
-        c = Ctx(pre=S.pre, fork=False)
+        c = ctx_metric or Ctx(pre=S.pre, fork=False)
+        if ctx_metric is not None:
+            c.pre = list(S.pre)
         obs = []
 
         def P(name, impl, want, group, get=None):
@@ -110,7 +112,9 @@ def build(tier):
 
         # second instance (fresh cache: gdet takes the -alpha^2 gammadet branch)
         S2 = PointSetup()
-        c2 = Ctx(pre=S2.pre, fork=False)
+        c2 = ctx_algebra or Ctx(pre=S2.pre, fork=False)
+        if ctx_algebra is not None:
+            c2.pre = list(S2.pre)
         obs2 = []
 
         def P2(name, impl, want, group, get=None):
@@ -189,7 +193,9 @@ def build(tier):
 
         # conformal quantities (root atom psi = det^(1/12)): designed metric values, rest free
         S3 = PointSetup()
-        c3 = Ctx(pre=S3.pre, fork=False)
+        c3 = ctx_algebra or Ctx(pre=S3.pre, fork=False)
+        if ctx_algebra is not None:
+            c3.pre = list(S3.pre)
         obs3 = []
 
         def P3(name, impl, want, group):
@@ -259,6 +265,31 @@ def build(tier):
                                group='populate_4Riemann reproduces the stst block'))
         blocks.append(dict(name='populate_4Riemann', setup=None, run=None, obs=obs4, ctx=c4))
     return blocks
+
+
+def build_forking(tier, report):
+    from symx.sym import explore
+    collected = None
+    n = 0
+    seen_names = {}
+
+    def run(c):
+        c.fork = True
+        return build(tier, ctx_metric=c, ctx_algebra=c)
+    for c, blocks in explore(run, pre=[], backend='z3old', decide_timeout=20, max_paths=32):
+        n += 1
+        for blk in blocks:
+            for ob in blk['obs']:
+                ob.pre = list(ob.pre) + list(c.pc)
+                ob.name = f"{ob.name} @path{n}"
+        if collected is None:
+            collected = blocks
+        else:
+            for a, b in zip(collected, blocks):
+                a['obs'] = a['obs'] + b['obs']
+    report.extra['forked_paths'] = n
+    report.notes.append(f'a safe_division branch is not decided by the preconditions: {n} paths explored')
+    return collected
 
 
 # ------------------------------------------------------------------------------ safe_division / FP
@@ -470,8 +501,14 @@ def main(report, tier, seed, workers, calibrate=False):
                            'matrices (det = 2^12, psi = 2); K, lapse, shift free',
                            'safe_division: numpy float division is IEEE-754 RNE fp.div']
     report.stubs += ['aurel.*.np -> symx.npproxy']
+    from symx.sym import Inconclusive
     with FuncTrace() as ft:
-        blocks = build(tier)
+        try:
+            blocks = build(tier)
+        except Inconclusive:
+            # a data-dependent branch (safe_division) that the preconditions do not decide: explore both outcomes;
+            # every path carries its path condition into the obligations built on it
+            blocks = build_forking(tier, report)
     report.functions |= ft.seen
     report.extra['source_sha1'] = source_digest(FILES)
     to = 60 if tier == 'quick' else 400
@@ -489,7 +526,7 @@ def main(report, tier, seed, workers, calibrate=False):
                     verbose=bool(calibrate))
         report.extra.setdefault('branch_decisions', {})[blk['name']] = blk['ctx'].decision_queries
     safe_division_fp(report, tier)
-    pick = [ob for ob in blocks[0]['obs'] if ob.name == 'n^mu n_mu'][0]
+    pick = [ob for ob in blocks[0]['obs'] if ob.name.startswith('n^mu n_mu')][0]
     witness_sat(report, pick, 'n.n == 0 (wrong)')
 
 
